@@ -1,6 +1,9 @@
 package plan
 
-import "fmt"
+import (
+	"fmt"
+	"math"
+)
 
 // Inst is the model state of one instance of a plan.
 type Inst struct {
@@ -53,9 +56,9 @@ func (f *Fail) String() string {
 
 // Event is a predicted listener event.
 type Event struct {
-	Kind  string // before | after | abort
-	Func  string // debug name
-	Vals  []uint32
+	Kind  string   // before | after | abort
+	Func  string   // debug name
+	Vals  []uint64 // i32/f32 in the low 32 bits, i64/f64 full width
 	Chain []string // before only: call chain from the callee outward, within the current call engine
 }
 
@@ -142,10 +145,10 @@ func (w *World) APICallRec(in *Inst, r int, x int32) (int32, *Fail) {
 func (w *World) gleaf(in *Inst, x int32) int32 {
 	name := in.P.Name + ".gleaf"
 	w.chain = append(w.chain, name)
-	w.emit(in, Event{Kind: "before", Func: name, Vals: []uint32{uint32(x)}, Chain: w.curChain()})
+	w.emit(in, Event{Kind: "before", Func: name, Vals: []uint64{uint64(uint32(x))}, Chain: w.curChain()})
 	in.Globals[3]++
 	w.chain = w.chain[:len(w.chain)-1]
-	w.emit(in, Event{Kind: "after", Func: name, Vals: []uint32{uint32(x + 1)}})
+	w.emit(in, Event{Kind: "after", Func: name, Vals: []uint64{uint64(uint32(x + 1))}})
 	return x + 1
 }
 
@@ -156,14 +159,14 @@ func (w *World) call(in *Inst, fn int, x int32) (res int32, fail *Fail) {
 	if w.Depth > w.MaxDepthSeen {
 		w.MaxDepthSeen = w.Depth
 	}
-	w.emit(in, Event{Kind: "before", Func: name, Vals: []uint32{uint32(x)}, Chain: w.curChain()})
+	w.emit(in, Event{Kind: "before", Func: name, Vals: []uint64{uint64(uint32(x))}, Chain: w.curChain()})
 	defer func() {
 		w.Depth--
 		w.chain = w.chain[:len(w.chain)-1]
 		if fail != nil {
 			w.emit(in, Event{Kind: "abort", Func: name})
 		} else {
-			w.emit(in, Event{Kind: "after", Func: name, Vals: []uint32{uint32(res)}})
+			w.emit(in, Event{Kind: "after", Func: name, Vals: []uint64{uint64(uint32(res))}})
 		}
 	}()
 	acc := x
@@ -213,14 +216,14 @@ func (w *World) call(in *Inst, fn int, x int32) (res int32, fail *Fail) {
 			acc = r
 		case AHost:
 			w.chain = append(w.chain, "env.h")
-			w.emit(nil, Event{Kind: "before", Func: "env.h", Vals: []uint32{uint32(a.A), uint32(acc)}, Chain: w.curChain()})
+			w.emit(nil, Event{Kind: "before", Func: "env.h", Vals: []uint64{uint64(uint32(a.A)), uint64(uint32(acc))}, Chain: w.curChain()})
 			r, f := w.Host(w, in, a.A, acc)
 			w.chain = w.chain[:len(w.chain)-1]
 			if f != nil {
 				w.emit(nil, Event{Kind: "abort", Func: "env.h"})
 				return 0, f
 			}
-			w.emit(nil, Event{Kind: "after", Func: "env.h", Vals: []uint32{uint32(r)}})
+			w.emit(nil, Event{Kind: "after", Func: "env.h", Vals: []uint64{uint64(uint32(r))}})
 			acc = r
 		case ATrap:
 			if a.A == TrapDivZero || a.A == TrapOOBLoad || a.A == TrapOOBStore || a.A == TrapUnreachable || a.A == TrapTruncOverflow || a.A == TrapAtomicOOB8 || a.A == TrapAtomicCmpxchgOOB8 {
@@ -283,6 +286,18 @@ func (w *World) call(in *Inst, fn int, x int32) (res int32, fail *Fail) {
 		case ACallGRef:
 			in.Table[SlotGRef] = -3
 			acc = w.gleaf(in, acc)
+		case AWide:
+			name := in.P.Name + ".wide"
+			b := int64(acc) * 3
+			cf := float32(acc & 0xFF)
+			df := float64(acc & 0xFFFF)
+			w.chain = append(w.chain, name)
+			w.emit(in, Event{Kind: "before", Func: name, Vals: []uint64{uint64(uint32(acc)), uint64(b), uint64(math.Float32bits(cf)), math.Float64bits(df)}, Chain: w.curChain()})
+			w.chain = w.chain[:len(w.chain)-1]
+			r0 := b + int64(acc)
+			r1 := acc + int32(cf) + int32(df)
+			w.emit(in, Event{Kind: "after", Func: name, Vals: []uint64{uint64(r0), uint64(uint32(r1))}})
+			acc = int32(r0) + r1
 		case AAtomicAdd:
 			old := in.Cells[a.A]
 			in.Cells[a.A] = old + a.B
